@@ -165,6 +165,9 @@ def gen_f_driver(cases, nvals, with_class):
     if with_class:
         body.append(CLS_FDRIVER)
     L += body
+    if with_class:
+        L.append("contains")
+        L.append(CLS_FCONTAINS)
     L.append("end program driver")
     return "\n".join(L) + "\n", calls
 
@@ -228,7 +231,62 @@ CLS_FDRIVER = """
     rv = b%count()
     call vt_begin("CallerReturn"//C_NULL_CHAR, "count"//C_NULL_CHAR); call vt_target("ns1::Cls::count()"//C_NULL_CHAR)
     call vt_int(int(rv, C_LONG)); call vt_end()
+    ! member accessors (specs/Members.tla): type-bound getters and setters; b%get() / c%set() give the library's view
+    block
+      integer(C_INT) :: g
+      real(C_DOUBLE) :: x
+      g = b%get_value(); call mget_i("value", b, g)
+      g = b%get_ro(); call mget_i("ro", b, g)
+      x = b%get_alt(); call mget_d("alt", b, x)
+      call mset_i("value", b, 31_C_INT); call b%set_value(31_C_INT)
+      call vt_begin("CallerInvoke"//C_NULL_CHAR, "get"//C_NULL_CHAR); call vt_target("ns1::Cls::get()"//C_NULL_CHAR)
+      call vt_obj(b%get_instance()); call vt_end()
+      rv = b%get()
+      call vt_begin("CallerReturn"//C_NULL_CHAR, "get"//C_NULL_CHAR); call vt_target("ns1::Cls::get()"//C_NULL_CHAR)
+      call vt_int(int(rv, C_LONG)); call vt_end()
+      g = b%get_value(); call mget_i("value", b, g)
+      g = c%get_value(); call mget_i("value", c, g)
+      g = b%get_ro(); call mget_i("ro", b, g)
+      call vt_begin("CallerInvoke"//C_NULL_CHAR, "set"//C_NULL_CHAR); call vt_target("ns1::Cls::set(int)"//C_NULL_CHAR)
+      call vt_obj(c%get_instance()); call vt_int(-6_C_LONG); call vt_end()
+      call c%set(-6_C_INT)
+      call vt_begin("CallerReturn"//C_NULL_CHAR, "set"//C_NULL_CHAR); call vt_target("ns1::Cls::set(int)"//C_NULL_CHAR)
+      call vt_end()
+      g = c%get_value(); call mget_i("value", c, g)
+      call mset_d("alt", c, 2.25_C_DOUBLE); call c%set_alt(2.25_C_DOUBLE)
+      x = c%get_alt(); call mget_d("alt", c, x)
+      x = d%get_alt(); call mget_d("alt", d, x)
+      g = d%get_value(); call mget_i("value", d, g)
+      g = d%get_ro(); call mget_i("ro", d, g)
+    end block
   end block
+"""
+
+CLS_FCONTAINS = """
+  subroutine mget_i(m, o, v)
+    character(len=*), intent(in) :: m
+    type(cls), intent(in) :: o
+    integer(C_INT), intent(in) :: v
+    call vt_begin("MemberGet"//C_NULL_CHAR, m//C_NULL_CHAR); call vt_obj(o%get_instance()); call vt_int(int(v, C_LONG)); call vt_end()
+  end subroutine mget_i
+  subroutine mset_i(m, o, v)
+    character(len=*), intent(in) :: m
+    type(cls), intent(in) :: o
+    integer(C_INT), intent(in) :: v
+    call vt_begin("MemberSet"//C_NULL_CHAR, m//C_NULL_CHAR); call vt_obj(o%get_instance()); call vt_int(int(v, C_LONG)); call vt_end()
+  end subroutine mset_i
+  subroutine mget_d(m, o, v)
+    character(len=*), intent(in) :: m
+    type(cls), intent(in) :: o
+    real(C_DOUBLE), intent(in) :: v
+    call vt_begin("MemberGet"//C_NULL_CHAR, m//C_NULL_CHAR); call vt_obj(o%get_instance()); call vt_dbl(v); call vt_end()
+  end subroutine mget_d
+  subroutine mset_d(m, o, v)
+    character(len=*), intent(in) :: m
+    type(cls), intent(in) :: o
+    real(C_DOUBLE), intent(in) :: v
+    call vt_begin("MemberSet"//C_NULL_CHAR, m//C_NULL_CHAR); call vt_obj(o%get_instance()); call vt_dbl(v); call vt_end()
+  end subroutine mset_d
 """
 
 
@@ -332,4 +390,4 @@ def build_and_run_f(d, cases, with_class=True, nvals=4, options=None, extra_argv
             sig = f_sig(c, tt, nsup)
             label = "%s [%s]" % (tg, name)
         traces.append({"sig": sig, "events": ev, "label": label})
-    return {"traces": traces, "problems": problems, "yaml": y}
+    return {"traces": traces, "problems": problems, "yaml": y, "members": cgen.member_trace(events) if with_class else []}
